@@ -160,6 +160,8 @@ func runC15(c *Ctx, r *Report) {
 
 	// R-C15.6: with an upper bound option the start set never falls back to the heads
 	r.Doc("R-C15.6", "on a path where an upper-bound option (LT/LTE) was seen, the start set handed to the traversal is never (re)assigned from the log's heads")
+	r.Doc("R-C15.7", "entries are emitted newest first: the traversal sorts its start set and re-sorts after every growth before taking the next entry (for every caller, including the bounded iterator paths)")
+	importRules(c, r, "C03", []string{"R-C03.2"}, "R-C15.7")
 	headsField := p.Field("", "IPFSLog", "heads")
 	ltF, lteF := p.Field("iface", "IteratorOptions", "LT"), p.Field("iface", "IteratorOptions", "LTE")
 	nhs := 0
